@@ -206,6 +206,20 @@ def run_quilt(case, ctx):
         ctx.state((sizes, axis, retain, li, backing, kinds, name))
         got = outcome(lambda: fn(q))
         exp = outcome(lambda: fn(ref))
+        # the same operation through a renamed Quilt (derived before / after the source has realised its labels): a Quilt over the same Bus on the same axis
+        if backing == 'memory':
+            for when in ('rename-first', 'rename-after-shape'):
+                bus2, _ = make_bus(sizes, axis, li, backing, kinds)
+                q0 = sf.Quilt(bus2, axis=axis, retain_labels=retain)
+                if when == 'rename-after-shape':
+                    q0.shape
+                ctx.transition()
+                got2 = outcome(lambda: fn(q0.rename('renamed')))
+                exp2 = outcome(lambda: fn(ref.rename('renamed')))
+                both_err = isinstance(got2, tuple) and isinstance(exp2, tuple) and got2[:1] == ('raises',) and exp2[:1] == ('raises',)
+                if got2 != exp2 and not both_err and got2 != ('refused',) and (got == exp):
+                    ctx.violation(f'quilt|{klass}|renamed-quilt-differs|{when}', **info, operation=name, got=repr(got2)[:300], expected=repr(exp2)[:300])
+                    break
         if got == ('refused',):
             ctx.outcome('refused')
             continue
